@@ -24,8 +24,8 @@ theorem inv_advance_pre (c : Cfg) (ar aq : Nat) (s : S) (h : Inv c ar aq s) (p :
     have h17 := h.k17 hcl hp
     have hq2 : fwdPhase p = false ∧ upPhase p = false ∧ p ≠ .End ∧ p ≠ .Retry := by
       cases p <;> simp [prePhase, fwdPhase, upPhase] at hq ⊢
-    obtain ⟨k0, k1, k2, k3, k4, k5, k6, k7, k8, k9, k10, k11, k12, k13, k14, k15, k16, k17, k18, k19, k20, k21, k22, k23, k24, k25, k26, k27, k28, k29, k30, k31⟩ := h
-    refine ⟨k0, k1, k2, k3, k4, k5, k6, k7, ?_, k9, k10, k11, k12, k13, k14, ?_, ?_, ?_, ?_, ?_, k20, k21, k22, ?_, k24, k25, ?_, ?_, ?_, ?_, ?_, k31⟩
+    obtain ⟨k0, k1, k2, k3, k4, k5, k6, k7, k8, k9, k10, k11, k12, k13, k14, k15, k16, k17, k18, k19, k20, k21, k22, k23, k24, k25, k26, k27, k28, k29, k30, k31, k32⟩ := h
+    refine ⟨k0, k1, k2, k3, k4, k5, k6, k7, ?_, k9, k10, k11, k12, k13, k14, ?_, ?_, ?_, ?_, ?_, k20, k21, k22, ?_, k24, k25, ?_, ?_, ?_, ?_, ?_, k31, ?_⟩
     · intro _
       have hp0 : s.pass = 0 := h17.2.2.2.2.2.2.2.2.2
       exact ⟨by show s.pass ≤ 1; omega, Or.inl hp0⟩
@@ -45,6 +45,9 @@ theorem inv_advance_pre (c : Cfg) (ar aq : Nat) (s : S) (h : Inv c ar aq s) (p :
       refine ⟨?_, ?_, ?_⟩ <;> (intro hh; have hh' : p = _ := hh; rw [hh'] at hq; simp [prePhase] at hq)
     · intro _ hh
       rcases hh with hh | hh <;> (have hh' : p = _ := hh; rw [hh'] at hq; simp [prePhase] at hq)
+    · intro _ _
+      refine ⟨hq2.2.1, ?_, hq2.2.2.2⟩
+      intro hh; have hh' : p = _ := hh; rw [hh'] at hq; simp [prePhase] at hq
 
 /-- phases `DownFilter`, `MatchRoute`, `DownFilterAfterRoute` (no stream filters in this model): only `processError` -/
 theorem inv_work_pre (c : Cfg) (ar aq : Nat) (s : S) (h : Inv c ar aq s) (hrun : s.running = true)
@@ -135,8 +138,8 @@ theorem inv_work_chooseHost (c : Cfg) (ar aq : Nat) (s : S) (h : Inv c ar aq s) 
       · intro _ hdr
         subst hs1
         have hdr : s.downReset = false := hdr
-        obtain ⟨k0, k1, k2, k3, k4, k5, k6, k7, k8, k9, k10, k11, k12, k13, k14, k15, k16, k17, k18, k19, k20, k21, k22, k23, k24, k25, k26, k27, k28, k29, k30, k31⟩ := h
-        refine ⟨k0, k1, k2, k3, k4, k5, k6, k7, ?_, hb1.k9, k10, k11, k12, ?_, hb1.k14, ?_, ?_, ?_, ?_, ?_, k20, k21, k22, ?_, ?_, ?_, ?_, ?_, ?_, ?_, ?_, ?_⟩
+        obtain ⟨k0, k1, k2, k3, k4, k5, k6, k7, k8, k9, k10, k11, k12, k13, k14, k15, k16, k17, k18, k19, k20, k21, k22, k23, k24, k25, k26, k27, k28, k29, k30, k31, k32⟩ := h
+        refine ⟨k0, k1, k2, k3, k4, k5, k6, k7, ?_, hb1.k9, k10, k11, k12, ?_, hb1.k14, ?_, ?_, ?_, ?_, ?_, k20, k21, k22, ?_, ?_, ?_, ?_, ?_, ?_, ?_, ?_, ?_, ?_⟩
         · intro _; exact ⟨by show s.pass ≤ 1; omega, Or.inl hps⟩
         · intro hh; simp [hcl] at hh
         · intro _ hh; simp [hp, Phase.next, upPhase] at hh
@@ -162,5 +165,6 @@ theorem inv_work_chooseHost (c : Cfg) (ar aq : Nat) (s : S) (h : Inv c ar aq s) 
           refine ⟨?_, ?_, ?_⟩ <;> (intro hh; simp [hp, Phase.next] at hh)
         · intro _ _; exact ⟨hst, hrq, hpt, hgt, hurr, hur, hge⟩
         · intro _; rfl
+        · intro _ _; simp [hp, Phase.next, upPhase]
 
 end MosnVerif.Model.Downstream
